@@ -56,6 +56,8 @@ pub(crate) enum Exp {
     AnyOf { c: usize, options: Vec<String> },
     Optional { c: usize, options: Vec<String> },
     OptionalPrefix { c: usize, prefix: String },
+    /// exactly one line that starts with `prefix` (the rest is not specified by any property)
+    OnePrefix { c: usize, prefix: String },
     /// a line "<head> <items joined by sep>" whose items must include `required` and may include `optional`;
     /// if `required` is empty the line may be absent
     ModeAnn { c: usize, head: String, required: Vec<String>, optional: Vec<String> },
@@ -69,6 +71,7 @@ impl Exp {
             | Exp::AnyOf { c, .. }
             | Exp::Optional { c, .. }
             | Exp::OptionalPrefix { c, .. }
+            | Exp::OnePrefix { c, .. }
             | Exp::ModeAnn { c, .. } => *c,
         }
     }
@@ -567,7 +570,7 @@ impl Model {
                 if p.is_empty() {
                     self.push(se, c, "461 PING".into());
                 } else {
-                    self.push(se, c, format!(":{} PONG {}{}{}", self.cfg.name, self.cfg.name, SEP, p[0]));
+                    self.push(se, c, format!(":{} PONG {}", self.cfg.name, p[0]));
                 }
             }
             "PONG" => {
@@ -722,7 +725,7 @@ impl Model {
                     }
                 }
                 self.conns[c].cap_neg = true;
-                self.push(se, c, format!(":{} CAP *{}LS{}multi-prefix", srv, SEP, SEP));
+                self.push_e(se, Exp::OnePrefix { c, prefix: format!(":{} CAP *{}LS", srv, SEP) });
             }
             "LIST" => {
                 let caps = if self.conns[c].multi_prefix { "multi-prefix" } else { "" };
@@ -898,15 +901,15 @@ impl Model {
         }
         se.cur = P03 | P20 | P02 | if mask_user { P14 } else { 0 };
         self.push(se, c, format!("001 :Welcome to the {} Network, {}", self.cfg.network, src));
-        for n in ["002", "003", "004", "005", "005", "005"] {
-            self.push(se, c, n.to_string());
-        }
+        // 002-005 are customary, not required by any property (their number and content are the server's choice)
+        self.push_e(se, Exp::Optional { c, options: vec!["002".into(), "003".into(), "004".into(), "005".into()] });
         se.cur = P19 | P03;
         self.lusers(c, se);
         se.cur = P20 | P03;
         self.motd(c, se);
         se.cur = P11 | P20 | P03;
-        self.push(se, c, format!("221 {}", modes.changes()));
+        // the server shows the initial user modes; a later MODE query is what the properties rely on
+        self.push_e(se, Exp::Optional { c, options: vec![format!("221 {}", modes.changes())] });
         se.labels.push(format!("reg/ok{}", if cfg_registered { "/cfguser" } else { "" }));
     }
 
@@ -916,7 +919,7 @@ impl Model {
         let n = self.users.len();
         self.push(se, c, format!("251 {} {}", n - inv, inv));
         self.push(se, c, format!("252 {}", ops));
-        self.push(se, c, "253".into());
+        self.push_e(se, Exp::Optional { c, options: vec!["253".into()] });
         self.push(se, c, format!("254 {}", self.chans.len()));
         self.push(se, c, format!("255 {}", n));
         self.push(se, c, format!("265 {} {}", n, self.max_users));
@@ -924,9 +927,8 @@ impl Model {
     }
 
     fn motd(&self, c: usize, se: &mut StepExp) {
-        self.push(se, c, "375".into());
+        self.push_e(se, Exp::Optional { c, options: vec!["375".into(), "376".into()] });
         self.push(se, c, format!("372 :{}", self.cfg.motd));
-        self.push(se, c, "376".into());
     }
 
     // ------------------------------------------------------------------ channels
@@ -1109,6 +1111,7 @@ impl Model {
             self.push(se, c, jl.clone());
             if let Some((t, _)) = &ch.topic {
                 self.push(se, c, format!("332 {}{}{}", name, SEP, t));
+                self.push_e(se, Exp::Optional { c, options: vec![format!("333 {}", name)] });
             }
             if let Some(nl) = self.names_line(c, &ch) {
                 self.push(se, c, nl);
@@ -1245,6 +1248,7 @@ impl Model {
                 }
             }
         }
+        let comment_given = p.get(2).is_some();
         let comment = p.get(2).cloned().unwrap_or_else(|| "Kicked".to_string());
         se.cur = P09 | P04;
         for v in &kicked {
@@ -1255,10 +1259,17 @@ impl Model {
         let remaining: Vec<String> = self.chans.get(&chan).map(|ch| ch.members.keys().cloned().collect()).unwrap_or_default();
         for v in &kicked {
             let line = format!(":{} KICK {}{}{}{}{}", src, chan, SEP, v, SEP, comment);
-            for m in &remaining {
-                self.to_nick(se, m, line.clone());
+            let mut rcpt: Vec<String> = remaining.clone();
+            rcpt.push(v.clone());
+            for m in &rcpt {
+                if comment_given {
+                    self.to_nick(se, m, line.clone());
+                } else if let Some(u) = self.users.get(m) {
+                    // without a comment the server supplies one of its own choosing
+                    let uc = u.conn;
+                    self.push_e(se, Exp::OnePrefix { c: uc, prefix: format!(":{} KICK {}{}{}", src, chan, SEP, v) });
+                }
             }
-            self.to_nick(se, v, line.clone());
         }
         // victims removed earlier in the same command may or may not see later kicks: not specified
         if kicked.len() > 1 {
@@ -1457,7 +1468,7 @@ impl Model {
                 return;
             }
         }
-        self.push(se, c, "321".into());
+        self.push_e(se, Exp::Optional { c, options: vec!["321".into()] });
         let an = self.conns[c].nick.clone().unwrap_or_default();
         let chans: Vec<MChan> = self.chans.values().cloned().collect();
         let mut listed: BTreeSet<String> = BTreeSet::new();
@@ -1574,7 +1585,7 @@ impl Model {
         };
         if groups.is_empty() {
             self.push(se, c, format!("324 {} {}", chan, ch.mode_items().join(",")));
-            self.push(se, c, format!("329 {}", chan));
+            self.push_e(se, Exp::Optional { c, options: vec![format!("329 {}", chan)] });
             se.labels.push("MODE/query".into());
             return;
         }
@@ -2112,7 +2123,7 @@ impl Model {
                 se.cur = base;
             }
             self.push(se, c, format!("311 {} ~{} {}{}{}", n, u.user, u.host, SEP, u.real));
-            self.push(se, c, format!("312 {}", n));
+            self.push_e(se, Exp::Optional { c, options: vec![format!("312 {}", n)] });
             if u.modes.is_oper() {
                 se.cur = P11 | P15;
                 self.push(se, c, format!("313 {}", n));
@@ -2135,10 +2146,10 @@ impl Model {
                 opt_chs.sort();
                 self.push_e(se, Exp::ModeAnn { c, head: format!("319 {}", n), required: chs.clone(), optional: opt_chs.clone() });
             }
-            self.push(se, c, format!("317 {}", n));
+            self.push_e(se, Exp::Optional { c, options: vec![format!("317 {}", n)] });
             if u.modes.is_oper() {
                 se.cur = P11 | P15;
-                self.push(se, c, format!("378 {}", n));
+                self.push_e(se, Exp::Optional { c, options: vec![format!("378 {}", n)] });
                 self.push(se, c, format!("379 {}", n));
                 se.cur = base;
             }
@@ -2165,7 +2176,7 @@ impl Model {
             Some(h) => {
                 for (user, host, real) in h.iter().rev() {
                     self.push(se, c, format!("314 {} ~{} {}{}{}", n, user, host, SEP, real));
-                    self.push(se, c, format!("312 {}", n));
+                    self.push_e(se, Exp::Optional { c, options: vec![format!("312 {}", n)] });
                 }
                 se.labels.push("WHOWAS/found".into());
             }
